@@ -147,8 +147,10 @@ def run_case(spec):
         bal = 0.5 * b_max(np.eye(d), LmL)
         try:
             Mf = ml.SDML(prior='identity', balance_param=bal, sparsity_param=0.01).fit(PL, ds.ypairs).get_mahalanobis_matrix()
-            for dt in (np.int32, np.int64):
-                Mi = ml.SDML(prior='identity', balance_param=bal, sparsity_param=0.01).fit(PL.astype(dt), ds.ypairs).get_mahalanobis_matrix()
+            PLu = PL - PL.min()                 # the same configuration moved to non-negative coordinates: unsigned forms
+            for dt in (np.int32, np.int64, np.uint32, np.uint64):
+                Pd = (PLu if np.dtype(dt).kind == 'u' else PL).astype(dt)
+                Mi = ml.SDML(prior='identity', balance_param=bal, sparsity_param=0.01).fit(Pd, ds.ypairs).get_mahalanobis_matrix()
                 evals += 1
                 sigs.add(('SDML', dsn, 'large_int_pairs', np.dtype(dt).name))
                 if np.abs(Mi - Mf).max() > 1e-9 * np.abs(Mf).max():
